@@ -105,7 +105,7 @@ Theorem C04_paren_not_a_type_name : forall (P: Type) (s: pstate P) lp x l, Up P 
   kind_in (tk x) tbl_DECL_START = false ->
   exists s1, (forall f, try_paren_type_name P (S f) s = Ok (None, s1)) /\ Up P s1 (lp :: x :: l) /\
              idx P s1 = idx P s /\ ticks P s1 = (ticks P s + 1)%N.
-Proof. exact RoundTrip.tptn_not_type_c. Qed.
+Proof. exact RoundTrip.tptn_not_type_cost. Qed.
 Print Assumptions C04_paren_not_a_type_name.
 
 Theorem C04_typeid_starts_declaration : kind_in K_TYPEID tbl_DECL_START = true /\ kind_in K_ID tbl_DECL_START = false.
